@@ -10,6 +10,7 @@ import (
 	"sort"
 	"sync/atomic"
 	"testing"
+	"time"
 
 	"github.com/koron-go/z80/verifharness/stats"
 	"pgregory.net/rapid"
@@ -79,10 +80,28 @@ func image(c *c19Case) []byte {
 			b[i] = byte(stats.Hash(c.Seed, uint64(i)))
 		case 1:
 			b[i] = []byte{0x00, 0xFF, 0xFE, 0x1F, 0xD0, 0x0A, 0x0D, 0x1A}[i%8] // container magic, line ends, ^Z
+		case 5:
+			b[i] = byte(stats.Hash(c.Seed, uint64(i)) >> 8)
 		case 3:
 			b[i] = 0x1A // CP/M end-of-file padding all the way
 		default:
 			b[i] = byte(i)
+		}
+	}
+	if c.Style == 5 {
+		// the image contains the cassette sync header and runs of the type byte (data that looks like container
+		// structure), at drawn positions incl. every residue modulo 8
+		sync := []byte{0x1F, 0xA6, 0xDE, 0xBA, 0xCC, 0x13, 0x7D, 0x74}
+		for k := 0; k < 4; k++ {
+			at := int(stats.Hash(c.Seed, 0x51, uint64(k)) % uint64(c.Len+1))
+			if k == 0 {
+				at = int(c.Seed>>3) & 15
+			}
+			if k%2 == 0 {
+				copy(b[min(at, len(b)):], sync)
+			} else {
+				copy(b[min(at, len(b)):], bytes.Repeat([]byte{0xD0}, 10))
+			}
 		}
 	}
 	if c.Style == 4 && c.Len >= 8 {
@@ -157,11 +176,33 @@ func run(c *c19Case) string {
 	exe := func(tool string, args ...string) ([]byte, string) {
 		cmd := exec.Command(filepath.Join(binDir, tool), args...)
 		cmd.Dir = dir
-		if c.Feed == 1 {
-			cmd.Stdin = bytes.NewReader(img)
-		}
 		var stdout, stderr bytes.Buffer
 		cmd.Stdout, cmd.Stderr = &stdout, &stderr
+		if c.Feed == 1 {
+			// the producer at the other end of the pipe delivers the image in pieces (a reader must read until EOF)
+			w, err := cmd.StdinPipe()
+			if err != nil {
+				return nil, "HARNESS: " + err.Error()
+			}
+			if err := cmd.Start(); err != nil {
+				return nil, "HARNESS: " + err.Error()
+			}
+			pieces := 1 + int(c.Seed>>5)%4
+			for k := 0; k < pieces; k++ {
+				lo, hi := len(img)*k/pieces, len(img)*(k+1)/pieces
+				if _, err := w.Write(img[lo:hi]); err != nil {
+					break
+				}
+				if k+1 < pieces {
+					time.Sleep(3 * time.Millisecond) // lets a reader that does not wait for EOF come up short (no part of the verdict)
+				}
+			}
+			w.Close()
+			if err := cmd.Wait(); err != nil {
+				return nil, fmt.Sprintf("%s %v failed: %v: %s", tool, args, err, bytes.TrimSpace(stderr.Bytes()))
+			}
+			return stdout.Bytes(), ""
+		}
 		if err := cmd.Run(); err != nil {
 			return nil, fmt.Sprintf("%s %v failed: %v: %s", tool, args, err, bytes.TrimSpace(stderr.Bytes()))
 		}
@@ -299,8 +340,8 @@ func TestC19(t *testing.T) {
 		}
 	}()
 	col.Rule = "cim2bin and cim2cas built from the current tree and executed on rapid-drawn inputs: load offset (edges 0, 1, 0x8000, 0xA000, 0xFFFF and uniform; passed in decimal, 0x-hex or omitted = default 0xA000), " +
-		"image length 1..min(65536-off, 8192) plus exact-fit lengths (end = 0xFFFF, incl. 65536 bytes at offset 0), contents (hashed, container-magic / ^Z / line-end bytes, ramp), name of 0..12 printable bytes " +
-		"(0 = -nam omitted: the -cim argument as given is the name, also when spelled ./name, d/../name, .//name; 1/4 with multi-byte characters, the field is six bytes), output files fresh, already existing with junk of another length, the input file itself, or /dev/stdout feeding a pipe; image from a file or through /dev/stdin; oracle = independently written container encoder, output files must be byte-equal, exit status 0, input untouched; " +
+		"image length 1..min(65536-off, 8192) plus exact-fit lengths (end = 0xFFFF, incl. 65536 bytes at offset 0), contents (hashed, container-magic / ^Z / line-end bytes, ramp, whole CP/M records, a BIN container, data containing the cassette sync header and runs of D0 at every alignment), name of 0..12 printable bytes " +
+		"(0 = -nam omitted: the -cim argument as given is the name, also when spelled ./name, d/../name, .//name; 1/4 with multi-byte characters, the field is six bytes), output files fresh, already existing with junk of another length, the input file itself, or /dev/stdout feeding a pipe; image from a file or through /dev/stdin (delivered in 1..4 pieces); oracle = independently written container encoder, output files must be byte-equal, exit status 0, input untouched; " +
 		"non-trivial = length >= 2 and (offset not the default or name length != 6); distinct by hash(case)"
 	rapid.Check(t, func(t *rapid.T) {
 		var c c19Case
@@ -321,7 +362,7 @@ func TestC19(t *testing.T) {
 			c.Len = rapid.IntRange(1, min(room, 8192)).Draw(t, "len")
 		}
 		c.Seed = rapid.Uint64().Draw(t, "seed")
-		c.Style = rapid.IntRange(0, 4).Draw(t, "style")
+		c.Style = rapid.IntRange(0, 5).Draw(t, "style")
 		if c.Style == 3 && rapid.Bool().Draw(t, "len128") {
 			c.Len = min(room, 128*rapid.IntRange(1, 8).Draw(t, "records")) // whole CP/M records ending in ^Z
 		}
